@@ -22,8 +22,14 @@ WITNESS = {
   'lexer': ('samlang-parser', 'crates/samlang-parser/src/lexer.rs', 'wx/witness/samlang_parser_lexer.rs', 'verif_witness_search_positions'),
   'ccpbin': ('samlang-optimization', 'crates/samlang-optimization/src/conditional_constant_propagation.rs', 'wx/witness/samlang_optimization_ccp.rs', 'verif_witness_search'),
   'strlit': ('samlang-printer', 'crates/samlang-printer/src/source_printer.rs', 'wx/witness/samlang_printer_source_printer.rs', 'verif_witness_search'),
-  'errgate': ('samlang-compiler', 'crates/samlang-compiler/src/lib.rs', 'wx/witness/samlang_compiler_lib.rs', 'verif_witness_search'),
+  'errgate': ('samlang-compiler', 'crates/samlang-compiler/src/lib.rs', 'wx/witness/samlang_compiler_lib.rs', 'verif_witness_search_errors'),
   'dce': ('samlang-optimization', 'crates/samlang-optimization/src/dead_code_elimination.rs', 'wx/witness/samlang_optimization_dce.rs', 'verif_witness_search'),
+  'loopvars': ('samlang-compiler', 'crates/samlang-compiler/src/lib.rs', 'wx/witness/samlang_compiler_lib.rs', 'verif_witness_search_loopvars'),
+  'paren': ('samlang-printer', 'crates/samlang-printer/src/lib.rs', 'wx/witness/samlang_printer_roundtrip.rs', 'verif_witness_search'),
+  'wasmlower': ('samlang-compiler', 'crates/samlang-compiler/src/lib.rs', 'wx/witness/samlang_compiler_lib.rs', 'verif_witness_search_operators'),
+  'oparms': ('samlang-compiler', 'crates/samlang-compiler/src/lib.rs', 'wx/witness/samlang_compiler_lib.rs', 'verif_witness_search_operators'),
+  'strconst': ('samlang-compiler', 'crates/samlang-compiler/src/lib.rs', 'wx/witness/samlang_compiler_lib.rs', 'verif_witness_search_string_constants'),
+  'loopguard': ('samlang-optimization', 'crates/samlang-optimization/src/loop_induction_analysis.rs', 'wx/witness/samlang_optimization_loopguard.rs', 'verif_witness_search'),
   'depgraph': ('samlang-services', 'crates/samlang-services/src/dep_graph.rs', 'wx/witness/samlang_services_dep_graph.rs', 'verif_witness_search'),
 }
 
